@@ -1,11 +1,12 @@
 #!/usr/bin/env python3
 # Generates /verif/MANIFEST.json from scripts/manifest_src.json (one source of truth for the per-check texts).
-import json, subprocess, sys
-src = json.load(open('/verif/scripts/manifest_src.json'))
+import json, subprocess, sys, os
+ROOT = os.environ.get('VERIF_ROOT', '/verif')
+src = json.load(open(ROOT + '/scripts/manifest_src.json'))
 import glob, os
-for f in sorted(glob.glob('/verif/scripts/manifest.d/C*.json')):
+for f in sorted(glob.glob(ROOT + '/scripts/manifest.d/C*.json')):
     src['checks'][os.path.basename(f)[:-5]] = json.load(open(f))
-props = [json.loads(l) for l in open('/verif/properties.jsonl')]
+props = [json.loads(l) for l in open(ROOT + '/properties.jsonl')]
 ids = [p['id'] for p in props]
 checks = []
 for pid in ids:
@@ -35,5 +36,5 @@ m = {
  "notes": src["notes"],
  "not_applicable": na,
 }
-json.dump(m, open('/verif/MANIFEST.json','w'), indent=1)
+json.dump(m, open(ROOT + '/MANIFEST.json','w'), indent=1)
 print("checks:", [c['property_id'] for c in checks], "n/a:", [n['property_id'] for n in na])
